@@ -50,6 +50,9 @@ type G struct {
 	uniqueCtr uint64
 	// MaxDepth bounds nesting of list/map values.
 	MaxDepth int
+	// SameAttrBias is the probability that an attribute map is exactly {"same": "x"} (adjacent
+	// rows with equal key and value on different parents stress the parent-id encodings).
+	SameAttrBias float64
 
 	strs   []string
 	keys   []string
@@ -298,6 +301,13 @@ func (g *G) DeepValue(v pcommon.Value, d int) {
 
 // Attrs fills m with 0..maxN attributes.
 func (g *G) Attrs(m pcommon.Map, maxN int) {
+	if g.SameAttrBias > 0 && g.R.Float64() < g.SameAttrBias {
+		m.PutStr("same", "x")
+		if g.R.IntN(3) == 0 {
+			m.PutInt("n", 7)
+		}
+		return
+	}
 	if g.zero() && g.R.IntN(2) == 0 {
 		return
 	}
